@@ -202,7 +202,20 @@ func (a *APIClient) getBundledVersion(name string) (bundledVersion, bool) {
 	a.bundledVersionsMu.Lock()
 	defer a.bundledVersionsMu.Unlock()
 	bv, ok := a.bundledVersions[name]
-	return bv, ok
+	if !ok {
+		return bundledVersion{}, false
+	}
+	// Hand out copies: the attribute sets hold maps, which a plain copy of
+	// the values would still share with the stored version and with every
+	// other caller.
+	bv.Version.AttrSet = bv.Version.AttrSet.Clone()
+	reqs := make([]RequirementVersion, 0, len(bv.requirements))
+	for _, r := range bv.requirements {
+		r.Type = r.Type.Clone()
+		reqs = append(reqs, r)
+	}
+	bv.requirements = reqs
+	return bv, true
 }
 
 func (a *APIClient) npmRequirements(root VersionKey, reqs *pb.Requirements_NPM) ([]RequirementVersion, error) {
